@@ -182,7 +182,38 @@ impl Variants {
 
 // value.rs Cloner { visited, thread, gc, receiver_generation }: visited map is opaque here (its sharing/cycle
 // discipline is not under contract)
-pub struct Cloner<'gc> { pub thread: &'gc ThreadRef, pub gc: &'gc mut Gc, pub receiver_generation: Generation }
+// `visited: FnvMap<*const (), ValueRepr>` as a ghost map from object address to the copy already made (lookups/inserts ASSUMED
+// to be map operations)
+#[verifier::external_body] pub struct VisitedMap { _p: () }
+impl VisitedMap {
+    pub uninterp spec fn view(&self) -> Map<int, ValueRepr>;
+    #[verifier::external_body]
+    pub fn new() -> (r: VisitedMap) ensures r@ == Map::<int, ValueRepr>::empty() { unimplemented!() }
+    // Entry API desugared (R-map): entry(k) = Occupied(v) iff the key is present
+    #[verifier::external_body]
+    pub fn lookup(&self, k: usize) -> (r: Option<ValueRepr>)
+        ensures r is Some == self@.contains_key(k as int), r is Some ==> r->Some_0 == self@[k as int]
+    { unimplemented!() }
+    #[verifier::external_body]
+    pub fn insert(&mut self, k: usize, v: ValueRepr) ensures final(self)@ == old(self)@.insert(k as int, v) { unimplemented!() }
+}
+impl ValueRepr {
+    #[verifier::external_body]
+    pub fn clone_unrooted(&self) -> (r: ValueRepr) ensures r == *self { unimplemented!() }
+}
+// address of the OBJECT a GcPtr points to vs. address of the variable holding the pointer
+pub uninterp spec fn addr_of_object<T>(p: GcPtr<T>) -> int;
+#[verifier::external_body]
+pub fn pointee_addr<T>(p: &GcPtr<T>) -> (r: usize) ensures r as int == addr_of_object(*p) { unimplemented!() }
+#[verifier::external_body]
+pub fn slot_addr<T>(p: &GcPtr<T>) -> (r: usize) { unimplemented!() }   // deliberately unrelated to the object
+// the allocation closure passed to deep_clone_ptr: allocates the (not yet filled) copy; returns the value to remember and the new pointer
+#[verifier::external_body]
+pub fn alloc_cb<T, R>(gc: &mut Gc, value: &GcPtr<T>) -> (r: Result<(ValueRepr, R), Error>)
+    ensures r is Ok ==> fresh_value(r->Ok_0.0), gc_gen(*final(gc)) == gc_gen(*old(gc))
+{ unimplemented!() }
+
+pub struct Cloner<'gc> { pub visited: VisitedMap, pub thread: &'gc ThreadRef, pub gc: &'gc mut Gc, pub receiver_generation: Generation }
 
 impl<'gc> Cloner<'gc> {
     // ASSUMED contracts of the per-representation clone helpers: on success the result is a new object in the
